@@ -62,6 +62,7 @@ type c19Input struct {
 	End   int      `json:"end"`
 	Whole bool     `json:"whole"`
 	Sizes []int    `json:"sizes,omitempty"`
+	Eager bool     `json:"eager_eof_readerat,omitempty"` // read over the ReaderAt that reports io.EOF with the last bytes
 }
 
 // truth is what the generator knows about one record from having rendered it.
@@ -220,6 +221,7 @@ type c19Read struct {
 	errs    []string // per call: "" nil, "e" io.EOF, "x" other
 	outcome string   // "", "panic", "hang", "err" (Seq/SeqRange refused)
 	frame   string
+	errText string // text of the non-EOF error that ended the run, if any
 	again   []byte // everything read after Reset (one big buffer per call)
 	againOK bool   // the second pass ended with io.EOF
 }
@@ -235,9 +237,29 @@ func (r c19Read) String() string {
 	return hexs(r.data) + "|" + strings.Join(cs, ".")
 }
 
+// c19EagerReaderAt uses the one freedom the io.ReaderAt contract leaves for a read that ends exactly at the end
+// of the input: "ReadAt may return either err == EOF or err == nil". bytes.Reader and os.File return nil there;
+// this wrapper returns io.EOF together with the (complete) last bytes. Every other behaviour is that of
+// bytes.Reader (n < len(p) only with io.EOF; no short reads with a nil error: the contract forbids them).
+type c19EagerReaderAt struct{ data []byte }
+
+func (r c19EagerReaderAt) ReadAt(p []byte, off int64) (int, error) {
+	if off < 0 {
+		return 0, errors.New("negative offset")
+	}
+	if off >= int64(len(r.data)) {
+		return 0, io.EOF
+	}
+	n := copy(p, r.data[off:])
+	if n < len(p) || off+int64(n) == int64(len(r.data)) {
+		return n, io.EOF
+	}
+	return n, nil
+}
+
 // c19DoRead opens the range and calls Read with the buffer sizes taken cyclically from sizes until an
 // error is returned (io.EOF normally).
-func c19DoRead(data []byte, idx fai.Index, name string, whole bool, start, end int, sizes []int) c19Read {
+func c19DoRead(data []byte, idx fai.Index, name string, whole bool, start, end int, sizes []int, eager bool) c19Read {
 	var res c19Read
 	limit := end - start + 8
 	if whole {
@@ -249,7 +271,11 @@ func c19DoRead(data []byte, idx fai.Index, name string, whole bool, start, end i
 	o := guardTimeout(20*time.Second, func() {
 		var local c19Read
 		defer func() { res = local }()
-		f := fai.NewFile(bytes.NewReader(data), idx)
+		var ra io.ReaderAt = bytes.NewReader(data)
+		if eager {
+			ra = c19EagerReaderAt{data}
+		}
+		f := fai.NewFile(ra, idx)
 		var s *fai.Seq
 		var err error
 		if whole {
@@ -288,6 +314,7 @@ func c19DoRead(data []byte, idx fai.Index, name string, whole bool, start, end i
 				return
 			default:
 				local.errs = append(local.errs, "x")
+				local.errText = err.Error()
 				return
 			}
 		}
@@ -540,25 +567,36 @@ func c19File1(c *ctx, f c19File, opt c19Opts, d *Driver, impl *[]string) {
 			}
 		}
 		for _, sizes := range opt.sizeLists {
-			var implRes []string
-			for _, rg := range ranges {
-				s, e, whole := rg[0], rg[1], rg[2] == 1
-				want := bases[s:e]
-				got := c19DoRead(data, idx, t.name, whole, s, e, sizes)
-				implRes = append(implRes, got.String())
-				ri := c19Input{Kind: "file", File: &f, Rec: i, Start: s, End: e, Whole: whole, Sizes: sizes}
-				nt := e > s
-				r.eval(fmt.Sprintf("%s/%d/%d:%d/%v", enc, i, s, e, sizes), nt)
-				c19JudgeRead(r, got, want, cls, ri)
+			// every read twice: over bytes.Reader, and over a ReaderAt that reports io.EOF together with a complete
+			// read ending at the end of the file (the only freedom the io.ReaderAt contract leaves)
+			for _, eager := range []bool{false, true} {
+				var implRes []string
+				rcls, cmd, key := cls, "c19.reads", ""
+				if eager {
+					rcls, cmd, key = cls+".eager-eof-readerat", "c19.readsE", "/eager"
+				}
+				for _, rg := range ranges {
+					s, e, whole := rg[0], rg[1], rg[2] == 1
+					want := bases[s:e]
+					got := c19DoRead(data, idx, t.name, whole, s, e, sizes, eager)
+					implRes = append(implRes, got.String())
+					ri := c19Input{Kind: "file", File: &f, Rec: i, Start: s, End: e, Whole: whole, Sizes: sizes, Eager: eager}
+					nt := e > s
+					r.eval(fmt.Sprintf("%s/%d/%d:%d/%v%s", enc, i, s, e, sizes, key), nt)
+					c19JudgeRead(r, got, want, rcls, ri)
+					if eager && e == len(bases) && e > s && i == len(truth)-1 && !f.Recs[i].Fin {
+						r.hist("read.eager-readerat.range-ends-at-unterminated-end-of-file")
+					}
+				}
+				add(strings.Join(implRes, ";"), cmd+" %s %s %s %s", hexs(data),
+					c19RecStr(rec.Name, rec.Length, rec.Start, rec.BasesPerLine, rec.BytesPerLine), c19Sizes(sizes), c19Ranges(ranges))
 			}
-			add(strings.Join(implRes, ";"), "c19.reads %s %s %s %s", hexs(data),
-				c19RecStr(rec.Name, rec.Length, rec.Start, rec.BasesPerLine, rec.BytesPerLine), c19Sizes(sizes), c19Ranges(ranges))
 		}
 		// refused ranges (error class only)
 		bad := [][3]int{{-1, 0, 0}, {0, -1, 0}, {1, 0, 0}, {0, len(bases) + 1, 0}, {len(bases) + 1, len(bases) + 1, 0}}
 		var implRes []string
 		for _, rg := range bad {
-			got := c19DoRead(data, idx, t.name, false, rg[0], rg[1], []int{4})
+			got := c19DoRead(data, idx, t.name, false, rg[0], rg[1], []int{4}, false)
 			implRes = append(implRes, got.String())
 			if got.outcome != "err" {
 				r.fail("fai.seqrange.accepts-bad-range", fmt.Sprintf("SeqRange(%s,%d,%d) accepted with length %d", t.name, rg[0], rg[1], len(bases)), in())
@@ -592,7 +630,7 @@ func c19GapFile(c *ctx, f c19File, d *Driver, impl *[]string) {
 			if rec.Gap == nil {
 				continue
 			}
-			got := c19DoRead(data, idx, rec.Name, true, 0, 0, []int{4096})
+			got := c19DoRead(data, idx, rec.Name, true, 0, 0, []int{4096}, false)
 			if got.outcome != "" || string(got.data) != rec.Bases {
 				ri := in
 				ri.Rec = i
@@ -620,7 +658,9 @@ func c19JudgeRead(r *Result, got c19Read, want string, cls string, ri c19Input) 
 		if string(got.data) != want {
 			r.fail("fai.read.bytes"+cls, fmt.Sprintf("read %q, want %q", c19Trunc(string(got.data)), c19Trunc(want)), ri)
 		}
-		if len(got.errs) == 0 || got.errs[len(got.errs)-1] != "e" {
+		if n := len(got.errs); n > 0 && got.errs[n-1] == "x" {
+			r.fail("fai.read.error"+cls, fmt.Sprintf("the read sequence ends with the error %q instead of io.EOF (after %d of %d bytes)", got.errText, len(got.data), len(want)), ri)
+		} else if n == 0 || got.errs[n-1] != "e" {
 			r.fail("fai.read.noeof"+cls, "the read sequence does not end with io.EOF", ri)
 		}
 		if len(got.errs) > 0 && got.errs[len(got.errs)-1] == "e" && (string(got.again) != want || !got.againOK) {
@@ -1102,7 +1142,7 @@ func checkC19(c *ctx) {
 		"(b) random files of 1..5 records, widths {1..8,60}, lengths 0 / <width / =width / k*width / k*width+r, LF or CRLF per record, optional " +
 		"description, blank (whitespace-only) lines before the first and after any record, last record with or without final newline; (c) a few files with lines longer than 64 KiB. " +
 		"Every (record,start,end) with 0<=start<=end<=length for records up to 12 bases (else whole + boundary-biased random ranges), " +
-		"each read with buffer-size sequences over {1,2,3,7,64,4096} used cyclically. One evaluation = one range read with one size sequence; " +
+		"each read with buffer-size sequences over {1,2,3,7,64,4096} used cyclically, once over bytes.Reader and once over a ReaderAt that returns io.EOF together with a complete read ending at the end of the file. One evaluation = one range read with one size sequence; " +
 		"non-trivial = non-empty range; distinct = distinct (file,record,range,sizes). Files with one blank line inside a record (gap files) must be rejected by NewIndex (oracle: if accepted, the gapped record must still read as its bases). Malformed FASTA bytes and malformed .fai text are compared " +
 		"with the model on error class / accepted records only."
 	if c.replay != "" {
